@@ -252,6 +252,12 @@ func (m *Model) expire(s *Session, a []string, unit int64, abs bool) Reply {
 		return Int(0)
 	}
 	cur := o.Exp
+	if (gt || lt) && cur != 0 && when == cur {
+		// a tie at millisecond granularity: the implementation compares with finer resolution;
+		// either answer leaves the deadline where it is
+		m.Unspec++
+		return Pred("0 or 1 (deadline tie)", func(r Reply) bool { return r.K == KInt && (r.I == 0 || r.I == 1) })
+	}
 	switch {
 	case nx && cur != 0:
 		return Int(0)
@@ -620,4 +626,149 @@ func mSort(m *Model, s *Session, a []string) Reply {
 		return u
 	}
 	return Arr(out...)
+}
+
+func init() {
+	// SCAN family: a single call with COUNT >= size walks the whole table; any other use is the
+	// subject of the cursor property (C17) and is not compared here.
+	scanReply := func(m *Model, elems []Reply, count int64, size int) Reply {
+		if count < int64(size) || count < 16 {
+			m.Unspec++
+			return Any("partial SCAN page")
+		}
+		u := USet(elems...)
+		return Pred("cursor 0 + all elements", func(r Reply) bool {
+			if r.K != KArray || len(r.A) != 2 || r.A[0].S != "0" {
+				return false
+			}
+			ok, _ := Match(u, Reply{K: KArray, A: r.A[1].A})
+			return ok && r.A[1].K == KArray
+		})
+	}
+	parseScanOpts := func(a []string, at int, allowType bool) (pattern string, count int64, typ string, e *Reply) {
+		count = 10
+		pattern = "*"
+		for i := at; i < len(a); i += 2 {
+			if i+1 >= len(a) {
+				r := errSyntax
+				return "", 0, "", &r
+			}
+			switch strings.ToLower(a[i]) {
+			case "match":
+				pattern = a[i+1]
+			case "count":
+				c, ok := parseInt(a[i+1])
+				if !ok {
+					r := errNotInt
+					return "", 0, "", &r
+				}
+				if c < 1 {
+					r := errSyntax
+					return "", 0, "", &r
+				}
+				count = c
+			case "type":
+				if !allowType {
+					r := errSyntax
+					return "", 0, "", &r
+				}
+				typ = strings.ToLower(a[i+1])
+			default:
+				r := errSyntax
+				return "", 0, "", &r
+			}
+		}
+		return
+	}
+	reg("scan", 2, -1, func(m *Model, s *Session, a []string) Reply {
+		if _, ok := parseInt(a[1]); !ok {
+			return Err("ERR invalid cursor")
+		}
+		pat, count, typ, e := parseScanOpts(a, 2, true)
+		if e != nil {
+			return *e
+		}
+		if a[1] != "0" {
+			m.Unspec++
+			return Any("SCAN continuation")
+		}
+		var el []Reply
+		for _, k := range sortedKeys(m.DBs[s.DB]) {
+			if GlobMatch(pat, k) && (typ == "" || m.DBs[s.DB][k].TypeName() == typ) {
+				el = append(el, Bulk(k))
+			}
+		}
+		return scanReply(m, el, count, len(m.DBs[s.DB]))
+	})
+	reg("hscan", 3, -1, func(m *Model, s *Session, a []string) Reply {
+		if _, ok := parseInt(a[2]); !ok {
+			return Err("ERR invalid cursor")
+		}
+		pat, count, _, e := parseScanOpts(a, 3, false)
+		if e != nil {
+			return *e
+		}
+		o, wt := m.typed(s.DB, a[1], 'h')
+		if wt {
+			return errWrongType
+		}
+		if o == nil {
+			return Arr(Bulk("0"), Arr())
+		}
+		if a[2] != "0" {
+			m.Unspec++
+			return Any("HSCAN continuation")
+		}
+		if count < int64(len(o.H)) || count < 16 {
+			m.Unspec++
+			return Any("partial HSCAN page")
+		}
+		want := UMap()
+		for _, f := range sortedKeys(o.H) {
+			if GlobMatch(pat, f) {
+				want.A = append(want.A, Bulk(f), Bulk(o.H[f]))
+			}
+		}
+		return Pred("cursor 0 + all field/value pairs", func(r Reply) bool {
+			if r.K != KArray || len(r.A) != 2 || r.A[0].S != "0" || r.A[1].K != KArray {
+				return false
+			}
+			ok, _ := Match(want, Reply{K: KArray, A: r.A[1].A})
+			return ok
+		})
+	})
+	reg("sscan", 3, -1, func(m *Model, s *Session, a []string) Reply {
+		if _, ok := parseInt(a[2]); !ok {
+			return Err("ERR invalid cursor")
+		}
+		pat, count, _, e := parseScanOpts(a, 3, false)
+		if e != nil {
+			return *e
+		}
+		o, wt := m.typed(s.DB, a[1], 'z')
+		if wt {
+			return errWrongType
+		}
+		if o == nil {
+			return Arr(Bulk("0"), Arr())
+		}
+		if a[2] != "0" {
+			m.Unspec++
+			return Any("SSCAN continuation")
+		}
+		var el []Reply
+		for _, k := range sortedKeys(o.Z) {
+			if GlobMatch(pat, k) {
+				el = append(el, Bulk(k))
+			}
+		}
+		return scanReply(m, el, count, len(o.Z))
+	})
+	reg("dump", 2, 2, func(m *Model, s *Session, a []string) Reply {
+		if m.get(s.DB, a[1]) == nil {
+			return Nil()
+		}
+		m.Unspec++
+		return Pred("opaque serialized value", func(r Reply) bool { return r.K == KBulk })
+	})
 }
